@@ -336,9 +336,9 @@ def is_int(c):
 
 
 def wellformed(obj, fresh=False):
-    """None if obj satisfies C02 clauses 1-4, else (clause, detail).  `fresh`: the object was
-    just returned by a constructor (limits of affinely scaled objects are judged only then: a raw
-    store silently clears the library's `scaled` marker, which belongs to C17, not to C02)."""
+    """None if obj satisfies C02 clauses 1-4, else (clause, detail).  (`fresh` is kept for callers:
+    limits of affinely scaled objects used to be judged on freshly constructed objects only; they are
+    judged always now - see DESIGN section 8, defect 3ef5762.)"""
     s, nw, nf = obj.signed, obj.n_word, obj.n_frac
     if not (isinstance(s, (bool, np.bool_)) or s in (0, 1)) or not is_int(nw) or not is_int(nf) or nw < 0:
         return 'format', {'signed': repr(s), 'n_word': repr(nw), 'n_frac': repr(nf)}
@@ -367,7 +367,7 @@ def wellformed(obj, fresh=False):
     scale = Fraction(obj.scale) if obj.scale is not None else Fraction(1)
     bias = Fraction(obj.bias) if obj.bias is not None else Fraction(0)
     scaled = scale != 1 or bias != 0
-    if hi.bit_length() <= 53 and abs(nf) < 1000 and (fresh or not scaled):
+    if hi.bit_length() <= 53 and abs(nf) < 1000:
         for name, code, use_bias in (('upper', hi, True), ('lower', lo, True), ('precision', 1, False)):
             got = getattr(obj, name)
             want = Q.unscale(code, nf)
